@@ -5,44 +5,77 @@ COMPONENTS = {
         "coq_run_module": "Future.FutRun",
         "accessors": {"internal/future/xv_fut_verif.go": "acc/future/xv_fut_verif.go",
                       "internal/actor/xv_ask_verif.go": "acc/actor/xv_ask_verif.go"},
-        "instrument": {"profile": "future", "files": ["internal/future/future.go", "internal/actor/context.go"]},
+        "instrument": {"profile": "futops", "files": ["internal/future/future.go", "internal/actor/context.go"]},
         "what": ("one real Ask under the controlled scheduler: the real (*Context).ask and the real future.Future (both re-instrumented from the "
-                 "current source: a scheduling point before NewFuture, appendFuture, every closed.Load/CAS, the err/message assignment, close(done), "
+                 "current source, steps selected and classified by operation, not by function name: a scheduling point before NewFuture, appendFuture, every closed.Load/CAS, the err/message assignment, close(done), "
                  "closer(), every mu.Lock, every <-done, every liaison.Tell; time.AfterFunc -> virtual timer thread), the real System future tables "
                  "(appendFuture, removeFuture, removeFuturesByAgentPath, findMailbox) and the real Context.Tell; only the recipient / forwarder / "
                  "foreign-actor / root mailboxes are recording fakes. Every step's (label, closed, err, message, done, |forwarders|, registered?, "
                  "|registry|, #PipeResults, #returns, #replies routed, ask returned?) plus the PipeResults, Result/Wait values and routing log are "
                  "replayed on Future/FutModel.v"),
     },
+    "futsys": {
+        "coq_run_module": "Future.SysRun",
+        "accessors": {"internal/future/xv_fut_verif.go": "acc/future/xv_fut_verif.go",
+                      "internal/actor/xv_ask_verif.go": "acc/actor/xv_ask_verif.go",
+                      "internal/actor/xv_futsys_verif.go": "acc/actor/xv_futsys_verif.go"},
+        "instrument": {"profile": "futsys", "files": ["internal/future/future.go", "internal/actor/context.go", "internal/actor/system.go"]},
+        "what": ("MANY concurrent real Asks sharing the future tables of one System under the controlled scheduler: the real (*Context).ask, the real "
+                 "future.Future and the real table functions of system.go, all three files re-instrumented from the current source (profile futsys: "
+                 "every actorContexts Store / Delete / Load, every futureLock section, NewFuture, the CAS / Load of closed, the err/message assignment, "
+                 "close(done), f.mu, every <-done; time.AfterFunc -> virtual timer thread). Threads run scripts: several Asks per asker path (one actor, "
+                 "the root context from several goroutines, successive incarnations of a re-used name), repliers, Close / Result / Wait callers, kill "
+                 "clean-ups (removeFuturesByAgentPath) possibly followed by further Asks of the dying actor. Every step's label, table sizes "
+                 "(futureAgents keys / entries, futures in actorContexts) and the (closed, err, message, done, in actorContexts?, in futureAgents?) of "
+                 "every visible future are replayed on Future/SysModel.v; the map iteration order of each clean-up is reconstructed from the trace"),
+    },
     "ask": {
         "coq_run_module": "Future.FutRun",
         "cmd": "ask",
         "run": "run_future",
         "monitors_only": True,
+        "public_api_fallback": True,
         "accessors": {"internal/actor/xv_ask_verif.go": "acc/actor/xv_ask_verif.go",
                       "internal/future/xv_fut_verif.go": "acc/future/xv_fut_verif.go"},
         "what": ("a real started ActorSystem through the public API, real goroutines and real time: many concurrent Asks (replies, tiny and large "
                  "timeouts, askers killed before the reply, PipeTo; name reuse: generations of same-named short-lived askers whose Asks end by timeout / "
-                 "death, late replies to the earlier generations released while the next generation's Asks are pending) - monitors only: every "
-                 "request and reply carries a unique id; each future completes with the reply produced for ITS request or its own timeout / dead "
-                 "error, afterwards actorContexts / futureAgents hold no future entry"),
+                 "death, late replies to the earlier generations released while the next generation's Asks are pending; asker death with pending "
+                 "Asks racing completions: several goroutines Ask through one asker context while its only pending Ask completes by reply / Close, "
+                 "then the asker is killed - every pending Ask must end promptly with actor-dead; Asks issued by the asker's own OnKill / OnKilled "
+                 "handler) - monitors only: every request and reply carries a unique id; each future completes with the reply produced for ITS "
+                 "request or its own timeout / dead error, afterwards actorContexts / futureAgents hold no future entry (tables read through "
+                 "reflection-based accessors; when they do not compile the command is built without them and the public-API monitors still run)"),
     },
 }
 
 PROPERTIES = {
     "C04": {
-        "components": ["future", "ask"],
+        "components": ["future", "futsys", "ask"],
+        "coq_files": ["Properties/C04.v", "Properties/C04_system.v"],
         "rule": ("component future: schedules of ONE real Ask under the controlled scheduler - depth-first enumeration with a preemption bound (2 quick / 3 "
                  "thorough) over 14 hand-picked populations (repliers, timer on/off, Close, asker death, PipeTo with 1-2 forwarders, Result/Wait, replies "
                  "to other paths, other actors registering/unregistering) plus seeded random populations (<=3 repliers incl. error-valued and nil "
                  "replies, timer on/off, <=2 Close, death, <=2 PipeTo, <=2 waiters, foreign registry traffic) under random and sticky schedulers; one "
                  "case = one complete schedule compared step by step with the model. distinct = distinct (population, schedule); non-trivial = at "
-                 "least two context switches. component ask: monitors only (real system, real time)"),
+                 "least two context switches. component futsys: schedules of MANY real Asks sharing one System's tables under the controlled "
+                 "scheduler with system.go instrumented - DFS (preemption bound 2 quick / 3 thorough) over 12 hand-picked script populations (split "
+                 "appendFuture / removeFuture vs reply, two Asks of one actor closed by its death in map order, System.Ask from two goroutines vs "
+                 "the death of the root path, two askers, name reuse with a late reply, the kill chain of an incarnation (clean-up, Asks of its handlers with / without timer, second clean-up), "
+                 "timer vs death vs Close, asker death with pending Asks racing completions) plus seeded random populations (1-3 actor goroutines "
+                 "with 1-2 Asks each, optional kill clean-up optionally followed by another Ask, <=3 repliers incl. error / nil values, Close, "
+                 "Result/Wait, an independent clean-up; every fourth population is of the racing class) under random and sticky schedulers; "
+                 "distinct = distinct (scripts with model ids and reconstructed iteration orders, schedule); non-trivial = at least two context "
+                 "switches. component ask: monitors only (real system, real time; incl. 250 / 6000 trials of asker death with pending Asks racing "
+                 "completions and the Asks issued by the asker's own kill processing)"),
         "modelled_not_verified": [
             "M1: sync/atomic operations are sequentially consistent; sync.Mutex gives mutual exclusion; M3: goroutine scheduling = arbitrary interleaving of the instrumented steps",
-            "appendFuture / removeFuture / removeFuturesByAgentPath / findMailbox are each ONE step (system.go is not instrumented: its sync.Map operation and its futureLock section are not interleaved with other threads)",
+            "single-Ask model (component future, Properties/C04.v) only: appendFuture / removeFuture / removeFuturesByAgentPath / findMailbox are each ONE step there. The system model (component futsys, Properties/C04_system.v) has them at their own granularity - every actorContexts Store / Delete / Load and every futureLock section is a step of its own, system.go is instrumented - so this coarsening is no longer part of the trusted base of the exactly-once / routing / registration / death clauses; it remains for the PipeTo / forwarder clauses, which never touch the tables",
+            "system model: one futureLock critical section is one atomic step (M1: it contains every access to futureAgents); a sync.Map operation is one atomic step (M2)",
+            "system model: the iteration order of the Go map in removeFuturesByAgentPath is an arbitrary order given by the environment (the [ord] of ODeath; every theorem holds for every order; the harness reconstructs the order of each run from the trace)",
+            "system model: PipeTo / forwarders are not part of it (per future, proved in the single-Ask model for every population); the recipient of the request is a recording fake; a reply that finds nothing registered goes to the dead-letter mailbox (TellSelf of the root: no further table access, as the lock-step showed)",
             "the reads of f.message / f.err are not scheduling points of their own: they happen in the step of the preceding <-done / closed.Load (coarser than the code, same outcomes: only one of the two fields is ever written, once)",
             "M6: time.AfterFunc fires no earlier than its duration (virtual clock: the timer's fire step is enabled only at now >= armed_at + timeout; the controlled scheduler decides when it fires)",
+            "system model: M7 is built in - the n-th NewFuture creates a fresh future registered under a fresh path (dynamic allocation); the explicit-hypothesis form and the proof that it is needed stay in Properties/C04.v",
             "M7 (explicit hypothesis M7_agent_path_fresh of the C04_reply_routing_* theorems; C04_reply_routing_needs_M7 shows it is needed): the agent path of a request is unique among all requests of all incarnations of all actors (uuid): nobody else registers under the future's path, the future is registered under no other path, and a reply can be addressed to it only by someone who received THIS request. On the implementation the class 'paths unique only per incarnation' is searched by the name-reuse scenarios of component ask (monitor reply-misrouted)",
             "one focus future per model instance; every other Ask / actor of the system is environment traffic on other registry paths",
             "forwarders named by the PipeTo calls of one future are pairwise distinct in C04_forwarders_once (ActorRefs.Unique is modelled; a forwarder named twice may legitimately receive one or two results)",
@@ -53,18 +86,32 @@ PROPERTIES = {
 
 META = {
     "C04": {
-        "text": ("Inductive invariants over ALL interleavings of ANY population of repliers / Close callers / asker death / PipeTo callers / Result-Wait callers / "
-                 "foreign registry users, for every timeout, of a micro-step Gallina model of one Ask (Context.ask, future.Future, the System future table, a "
-                 "virtual clock): one CAS winner, result written once before done and stable afterwards, readers see only the final result, terminal "
-                 "states are completed whenever anything reached the future or a timer was armed (timer never early), only Result/Wait of a never-completed "
-                 "future can block, no registry entry is left, every named forwarder gets exactly one PipeResult with the final result, replies are routed "
-                 "by path. The model is tied to the code by lock-step replay: ask and future.go are re-instrumented from the current source on every run and "
-                 "driven by a controlled scheduler with a virtual timer (DFS with preemption bound + random); every step's label and projected shared state "
-                 "must equal the model's. Two defects found by this check (PipeTo forwarding (nil,nil); registration leak when the timer fires before "
-                 "appendFuture) were fixed in /repo (1b346be, 6668c14); the monitors that found them stay armed."),
+        "text": ("Two micro-step Gallina models, both proved by inductive invariants over ALL interleavings and tied to the code by lock-step replay. "
+                 "(1) ONE Ask with ANY population of repliers / Close callers / asker death / PipeTo callers / Result-Wait callers / foreign registry "
+                 "users, every timeout (Properties/C04.v): one CAS winner, result written once before done and stable afterwards, readers see only the "
+                 "final result, terminal states are completed whenever anything reached the future or a timer was armed (timer never early), only "
+                 "Result/Wait of a never-completed future can block, no registry entry is left, every named forwarder gets exactly one PipeResult "
+                 "with the final result, replies are routed by path. (2) ANY NUMBER of concurrent Asks sharing the System's tables, the tables at "
+                 "their own granularity (actorContexts Store / Delete / Load and every futureLock section are steps of their own), any number of "
+                 "askers, several Asks per asker path (one actor, the root context from many goroutines, re-used names), kill clean-ups in any "
+                 "map-iteration order, timers (Properties/C04_system.v): per future exactly-once, own reply / own timeout / own asker's death "
+                 "(C04_sys_completes_origin, C04_sys_own_reply, C04_sys_error_origin), every returned, not yet completing Ask is in both tables, a "
+                 "kill clean-up completes every Ask that had returned when it copied the keys (C04_sys_death_completes); when the kill chain of an "
+                 "incarnation (clean-up, OnKill / OnKilled handlers that may Ask again, second clean-up after the last handler: /repo 3f0f6ad) has "
+                 "finished, every Ask the incarnation ever issued is completed by somebody and at quiescence done and registered nowhere "
+                 "(C04_sys_incarnation_asks_completed, C04_sys_incarnation_quiescent); nothing is left "
+                 "registered and both tables are empty at quiescence, nobody blocks but waiters of never-completed futures. The second clean-up is "
+                 "needed (C04_sys_second_cleanup_needed: without it an Ask of the OnKill / OnKilled handler without timer is never completed and stays "
+                 "registered - the defect C04-ask-during-kill found by this check and repaired in /repo 3f0f6ad; regression monitor "
+                 "c04-ask-during-kill-never-completed). The tie identifies a step by its operation class (what it does to which field / table), not by the name of the "
+                 "enclosing function; every step's class and projected shared state must equal the model's. Three defects found by this check "
+                 "(PipeTo forwarding (nil,nil); registration leak when the timer fires before appendFuture; Asks of the kill chain never completed) were fixed in /repo (1b346be, 6668c14, 3f0f6ad); "
+                 "the monitors that found them stay armed."),
         "design_ref": "DESIGN.md section 4 C04",
         "note": ("Trusted: Coq kernel; extraction; AST instrumenter + controlled scheduler (harness/instr, harness/vsched); the recording fake mailboxes; "
-                 "M1/M3 (SC atomics, interleaving), M6 (timers not early), M7 (fresh uuid); system.go's table functions as single steps; Go scheduler fairness for liveness."),
-        "technique": "Coq proof (inductive invariants of a small-step concurrent machine with ghost history, all populations and schedules) + lock-step correspondence against the instrumented real code under a controlled scheduler + real-time monitors on a real system",
+                 "the reflection-based registry accessors; M1/M2/M3 (SC atomics, critical section = one step, sync.Map atomic, interleaving), M6 (timers "
+                 "not early), M7 (fresh uuid); map iteration order = arbitrary; for the PipeTo clauses only: system.go's table functions as single "
+                 "steps; Go scheduler fairness for liveness."),
+        "technique": "Coq proof (inductive invariants of small-step concurrent machines with ghost history, all populations and schedules) + lock-step correspondence against the instrumented real code under a controlled scheduler (steps identified by operation class) + real-time monitors on a real system",
     },
 }
